@@ -284,8 +284,8 @@ Qed.
 
 End C07.
 
-(* ---------- non-vacuity: the historical witnesses, on the model AND (through C07_refines_partial) on the
-   specification ---------- *)
+(* ---------- non-vacuity: the historical witnesses, on the model AND (through C07_refines_structural_partial)
+   on the specification ---------- *)
 Definition ex_call (name : bytes) (pos : list fvalue) (_ : fargs) : fvalue :=
   match pos with v :: _ => v | [] => VNone end.                                   (* every registered function = identity *)
 Definition ex_rules (_ : ntype) (ops : operands) : pcat :=
@@ -293,25 +293,31 @@ Definition ex_rules (_ : ntype) (ops : operands) : pcat :=
 Definition ex_id (x : bytes) : bytes := x.
 Definition s (x : string) : bytes := bytes_of_string x.
 
-(* run write_pattern (isolation off, empty memoizer, fuel_of) and return what C07 speaks about *)
-Definition ex_run (m : list (bytes * bentry)) (a : option fargs) (p : pattern) : option res :=
-  match write_pattern true ex_call None None ex_rules ex_id ex_id ex_id f64_from_str_exact (Bundle m false) a
-          (fuel_of (Bundle m false) p) p [] with
-  | Done (o, sc) => if existsb is_tmp (sc_errors sc) then None else Some (flatten (strip o), sc_errors sc, sc_calls sc)
-  | _ => None
+(* run write_pattern on the pattern named n (isolation off, empty memoizer, fuel_of) and return what C07 speaks about *)
+Definition ex_run (m : list (bytes * bentry)) (a : option fargs) (n : pname) : option res :=
+  match pattern_named m n with
+  | None => None
+  | Some p =>
+      match write_pattern true ex_call None None ex_rules ex_id ex_id ex_id f64_from_str_exact (Bundle m false) a
+              (fuel_of (Bundle m false) p) p [] with
+      | Done (o, sc) => if existsb is_tmp (sc_errors sc) then None else Some (flatten (strip o), sc_errors sc, sc_calls sc)
+      | _ => None
+      end
   end.
 
-Lemma ex_run_spec m a p r :
-  ex_run m a p = Some r -> Eval ex_call None None ex_rules ex_id ex_id f64_from_str_exact m a p r.
+Notation ExSpec m a := (Eval ex_call None None ex_rules ex_id ex_id f64_from_str_exact m a open_by_structure).
+
+Lemma ex_run_spec m a n r : ex_run m a n = Some r -> ExSpec m a n r.
 Proof.
-  unfold ex_run. intros H.
+  unfold ex_run. intros H. destruct (pattern_named m n) as [p|] eqn:En; [|discriminate].
   destruct (write_pattern true ex_call None None ex_rules ex_id ex_id ex_id f64_from_str_exact (Bundle m false) a
               (fuel_of (Bundle m false) p) p []) as [[o sc]|t|] eqn:E; try discriminate.
   destruct (existsb is_tmp (sc_errors sc)) eqn:Et; [discriminate|]. injection H as <-.
-  eapply (C07_refines_partial true ex_call None None ex_rules ex_id ex_id ex_id f64_from_str_exact m a
-            (fun _ => eq_refl) false _ p [] o sc).
+  eapply (C07_refines_structural_partial true ex_call None None ex_rules ex_id ex_id ex_id f64_from_str_exact m a
+            (fun _ => eq_refl) false _ n p [] o sc).
   - intros ty r Hf. discriminate Hf.
   - intros Hx. discriminate Hx.
+  - exact En.
   - exact E.
   - intros Hin. assert (Hx : existsb is_tmp (sc_errors sc) = true) by (apply existsb_exists; exists TooManyPlaceables; auto).
     congruence.
@@ -319,59 +325,55 @@ Qed.
 
 Definition t (x : string) := TextElement (s x).
 Definition pl (i : inline) := PlaceableElement (Inline i).
+Definition message (id : string) (els : list pattern_element) : bytes * bentry := (s id, EMessage (Some (Pattern els)) []).
+Definition term (id : string) (els : list pattern_element) : bytes * bentry := (s id, ETerm (Pattern els) []).
+Definition the (id : string) : pname := NMessage (s id) None.
 
 (* D12 (fixed by 6123438):  -inner = x   -outer = { -inner } { $arg }   msg = { -outer(arg: "A") } *)
 Definition d12 : list (bytes * bentry) :=
-  [(s "inner", ETerm (Pattern [t "x"]) []);
-   (s "outer", ETerm (Pattern [pl (TermReference (s "inner") None None); t " "; pl (VariableReference (s "arg"))]) [])].
-Definition d12_msg : pattern :=
-  Pattern [pl (TermReference (s "outer") None (Some (CallArguments [] [NamedArgument (s "arg") (StringLiteral (s "A"))])))].
+  [term "inner" [t "x"];
+   term "outer" [pl (TermReference (s "inner") None None); t " "; pl (VariableReference (s "arg"))];
+   message "msg" [pl (TermReference (s "outer") None (Some (CallArguments [] [NamedArgument (s "arg") (StringLiteral (s "A"))])))]].
 Example C07_example_D12_outer_args_back :
-  Eval ex_call None None ex_rules ex_id ex_id f64_from_str_exact d12 None d12_msg (s "x A", [], []) /\
-  Eval ex_call None None ex_rules ex_id ex_id f64_from_str_exact d12 (Some [(s "arg", VString (s "CALLER"))]) d12_msg
-    (s "x A", [], []).
+  ExSpec d12 None (the "msg") (s "x A", [], []) /\
+  ExSpec d12 (Some [(s "arg", VString (s "CALLER"))]) (the "msg") (s "x A", [], []).
 Proof. split; apply ex_run_spec; vm_compute; reflexivity. Qed.
 
 (* a term does not see the caller's arguments; a parameter it was not given is no error; a message does *)
 Example C07_example_term_sees_only_its_arguments :
-  Eval ex_call None None ex_rules ex_id ex_id f64_from_str_exact
-    [(s "t", ETerm (Pattern [pl (VariableReference (s "arg"))]) []);
-     (s "m", EMessage (Some (Pattern [pl (VariableReference (s "arg"))])) [])]
-    (Some [(s "arg", VString (s "CALLER"))])
-    (Pattern [pl (TermReference (s "t") None None); t "|"; pl (MessageReference (s "m") None); t "|";
-              pl (VariableReference (s "nope"))])
+  ExSpec [term "t" [pl (VariableReference (s "arg"))];
+          message "m" [pl (VariableReference (s "arg"))];
+          message "e" [pl (TermReference (s "t") None None); t "|"; pl (MessageReference (s "m") None); t "|";
+                       pl (VariableReference (s "nope"))]]
+    (Some [(s "arg", VString (s "CALLER"))]) (the "e")
     (s "{$arg}|CALLER|{$nope}", [Reference (RefVariable (s "nope"))], []).
 Proof. apply ex_run_spec; vm_compute; reflexivity. Qed.
 
 (* D13 (fixed by 69d86e7):  { NOPE() -> [a] A *[b] B }  and  { IDENTITY(NOPE()) } *)
-Definition sel_nope : pattern :=
-  Pattern [PlaceableElement (Select (FunctionReference (s "NOPE") (CallArguments [] []))
-             [Variant (KeyIdentifier (s "a")) (Pattern [t "A"]) false; Variant (KeyIdentifier (s "b")) (Pattern [t "B"]) true])].
 Example C07_example_D13_unknown_function_in_selector :
-  Eval ex_call None None ex_rules ex_id ex_id f64_from_str_exact [] None sel_nope
-    (s "B", [Reference (RefFunction (s "NOPE"))], []).
+  ExSpec [message "e" [PlaceableElement (Select (FunctionReference (s "NOPE") (CallArguments [] []))
+             [Variant (KeyIdentifier (s "a")) (Pattern [t "A"]) false; Variant (KeyIdentifier (s "b")) (Pattern [t "B"]) true])]]
+    None (the "e") (s "B", [Reference (RefFunction (s "NOPE"))], []).
 Proof. apply ex_run_spec; vm_compute; reflexivity. Qed.
 Example C07_example_D13_unknown_function_in_argument :
-  Eval ex_call None None ex_rules ex_id ex_id f64_from_str_exact [(s "IDENTITY", EFunction (FnUser (s "IDENTITY")))] None
-    (Pattern [pl (FunctionReference (s "IDENTITY") (CallArguments [FunctionReference (s "NOPE") (CallArguments [] [])] []))])
-    (s "IDENTITY()", [Reference (RefFunction (s "NOPE"))], [Call (s "IDENTITY") [VError] []]).
+  ExSpec [(s "IDENTITY", EFunction (FnUser (s "IDENTITY")));
+          message "e" [pl (FunctionReference (s "IDENTITY") (CallArguments [FunctionReference (s "NOPE") (CallArguments [] [])] []))]]
+    None (the "e") (s "IDENTITY()", [Reference (RefFunction (s "NOPE"))], [Call (s "IDENTITY") [VError] []]).
 Proof. apply ex_run_spec; vm_compute; reflexivity. Qed.
 
 (* D14 (fixed by cc6821a):  { NUMBER($n, type: "ordinal") -> [1] first *[other] nth }  with n = 1, and
    { 1.0 -> [1] A *[other] B } *)
-Definition number_fn : list (bytes * bentry) := [(s "NUMBER", EFunction FnNUMBER)].
 Example C07_example_D14_numeric_key_by_value :
-  Eval ex_call None None ex_rules ex_id ex_id f64_from_str_exact number_fn
-    (Some [(s "n", VNumber (FNum (FDec false (s "1") []) default_options))])
-    (Pattern [PlaceableElement (Select (FunctionReference (s "NUMBER")
+  ExSpec [(s "NUMBER", EFunction FnNUMBER);
+          message "e" [PlaceableElement (Select (FunctionReference (s "NUMBER")
                  (CallArguments [VariableReference (s "n")] [NamedArgument (s "type") (StringLiteral (s "ordinal"))]))
-               [Variant (KeyNumber (s "1")) (Pattern [t "first"]) false; Variant (KeyIdentifier (s "other")) (Pattern [t "nth"]) true])])
+               [Variant (KeyNumber (s "1")) (Pattern [t "first"]) false; Variant (KeyIdentifier (s "other")) (Pattern [t "nth"]) true])]]
+    (Some [(s "n", VNumber (FNum (FDec false (s "1") []) default_options))]) (the "e")
     (s "first", [],
      [Call (s "NUMBER") [VNumber (FNum (FDec false (s "1") []) default_options)] [(s "type", VString (s "ordinal"))]]) /\
-  Eval ex_call None None ex_rules ex_id ex_id f64_from_str_exact [] None
-    (Pattern [PlaceableElement (Select (NumberLiteral (s "1.0"))
-               [Variant (KeyNumber (s "1")) (Pattern [t "A"]) false; Variant (KeyIdentifier (s "other")) (Pattern [t "B"]) true])])
-    (s "A", [], []).
+  ExSpec [message "f" [PlaceableElement (Select (NumberLiteral (s "1.0"))
+               [Variant (KeyNumber (s "1")) (Pattern [t "A"]) false; Variant (KeyIdentifier (s "other")) (Pattern [t "B"]) true])]]
+    None (the "f") (s "A", [], []).
 Proof. split; apply ex_run_spec; vm_compute; reflexivity. Qed.
 
 (* first match wins, exact number before category, plural category, default; a cycle; a value-less message *)
@@ -379,15 +381,56 @@ Example C07_example_select_and_errors :
   let keys := [Variant (KeyIdentifier (s "one")) (Pattern [t "cat"]) false;
                Variant (KeyNumber (s "1")) (Pattern [t "exact"]) false;
                Variant (KeyIdentifier (s "other")) (Pattern [t "dflt"]) true] in
-  let p := Pattern [PlaceableElement (Select (VariableReference (s "n")) keys)] in
+  let b := [message "e" [PlaceableElement (Select (VariableReference (s "n")) keys)]] in
   let n x := Some [(s "n", VNumber (FNum (FDec false (s x) []) default_options))] in
-  Eval ex_call None None ex_rules ex_id ex_id f64_from_str_exact [] (n "1"%string) p (s "cat", [], []) /\
-  Eval ex_call None None ex_rules ex_id ex_id f64_from_str_exact [] (n "5"%string) p (s "dflt", [], []) /\
-  Eval ex_call None None ex_rules ex_id ex_id f64_from_str_exact [] None p (s "dflt", [Reference (RefVariable (s "n"))], []) /\
-  Eval ex_call None None ex_rules ex_id ex_id f64_from_str_exact
-    [(s "a", EMessage (Some (Pattern [pl (MessageReference (s "b") None)])) []);
-     (s "b", EMessage (Some (Pattern [t "<"; pl (MessageReference (s "a") None); t ">"])) []);
-     (s "nv", EMessage None [Attribute (s "x") (Pattern [t "X"])])] None
-    (Pattern [pl (MessageReference (s "b") None); pl (MessageReference (s "nv") None); pl (MessageReference (s "nv") (Some (s "x")))])
-    (s "<{b}>{nv}X", [Cyclic; NoValue (s "nv")], []).
+  ExSpec b (n "1"%string) (the "e") (s "cat", [], []) /\
+  ExSpec b (n "5"%string) (the "e") (s "dflt", [], []) /\
+  ExSpec b None (the "e") (s "dflt", [Reference (RefVariable (s "n"))], []) /\
+  ExSpec [message "a" [pl (MessageReference (s "b") None)];
+          message "b" [t "<"; pl (MessageReference (s "a") None); t ">"];
+          (s "nv", EMessage None [Attribute (s "x") (Pattern [t "X"])]);
+          message "e" [pl (MessageReference (s "b") None); pl (MessageReference (s "nv") None); pl (MessageReference (s "nv") (Some (s "x")))]]
+    None (the "e") (s "<{b}>{nv}X", [Cyclic; NoValue (s "nv")], []).
 Proof. cbv zeta. split; [|split; [|split]]; apply ex_run_spec; vm_compute; reflexivity. Qed.
+
+(* NEW FINDING (reproduced on the Rust code: corpus/C07/false_cycle.case).  Two DIFFERENT terms with the SAME text:
+       -a = { $k -> [1] { -b(k: 2) } *[other] end }
+       -b = { $k -> [1] { -b(k: 2) } *[other] end }
+       e  = { -a(k: 1) }
+   -b(k: 2) is not being expanded when -a refers to it, and it prints "end" without re-entering anything; but
+   Scope::track compares patterns structurally, finds -b's pattern "on the stack" (it equals -a's) and reports
+   a cycle.  The structural reading (= the code) gives {-b} + Cyclic; the property's reading gives "end". *)
+Definition rec_body : list pattern_element :=
+  [PlaceableElement (Select (VariableReference (s "k"))
+     [Variant (KeyNumber (s "1"))
+        (Pattern [pl (TermReference (s "b") None (Some (CallArguments [] [NamedArgument (s "k") (NumberLiteral (s "2"))])))]) false;
+      Variant (KeyIdentifier (s "other")) (Pattern [t "end"]) true])].
+Definition false_cycle : list (bytes * bentry) :=
+  [term "a" rec_body; term "b" rec_body;
+   message "e" [pl (TermReference (s "a") None (Some (CallArguments [] [NamedArgument (s "k") (NumberLiteral (s "1"))])))]].
+
+Ltac side := vm_compute; reflexivity.
+Ltac derive :=
+  repeat first
+    [ eapply P_elements | eapply L_end | eapply L_text | eapply L_placeable | eapply X_inline
+    | eapply X_select; [ | side | ] | eapply I_string | eapply I_number
+    | eapply I_variable; side | eapply I_term | eapply A_some | eapply A_none | eapply S_nil | eapply S_cons
+    | eapply V_number | eapply V_string | eapply V_variable; side
+    | eapply R_found; [side | ] | eapply R_cyclic; side ].
+
+Example C07_false_cycle_witness :
+  ExSpec false_cycle None (the "e") (s "{-b}", [Cyclic], []) /\
+  Eval ex_call None None ex_rules ex_id ex_id f64_from_str_exact false_cycle None open_by_identity (the "e") (s "end", [], []) /\
+  ~ no_equal_patterns false_cycle.
+Proof.
+  split; [apply ex_run_spec; vm_compute; reflexivity|]. split.
+  - eexists. split; [vm_compute; reflexivity|].
+    assert (H : exists r, eval_pattern ex_call None None ex_rules ex_id ex_id f64_from_str_exact false_cycle None open_by_identity
+                            [(the "e", Pattern [pl (TermReference (s "a") None (Some (CallArguments [] [NamedArgument (s "k") (NumberLiteral (s "1"))])))])]
+                            None (Pattern [pl (TermReference (s "a") None (Some (CallArguments [] [NamedArgument (s "k") (NumberLiteral (s "1"))])))]) r /\
+                          r = (s "end", [], [])).
+    { eexists. split; [derive | vm_compute; reflexivity]. }
+    destruct H as (r & H & ->). exact H.
+  - intros H. specialize (H (NTerm (s "a") None) (NTerm (s "b") None) (Pattern rec_body) (Pattern rec_body) eq_refl eq_refl eq_refl).
+    discriminate H.
+Qed.
